@@ -238,6 +238,29 @@ def step (line : String) : String :=
       let body := PyAst.Body.parseBody (items "stmts")
       let out := PyAst.Body.emitBody doc body ret
       (Json.mkObj [("ok", Json.arr (out.map A.itemToJson).toArray)]).compress
+    | .ok "view" =>
+      let ir := match j.getObjVal? "ir" with | .ok i => irOfJson i | _ => {}
+      let inl := (j.getObjValAs? Bool "inline").toOption.getD false
+      let kwo := (j.getObjValAs? Bool "kwonly").toOption.getD false
+      let ostr (o : Option (List Char)) : Json := match o with | some s => Json.str (String.ofList s) | none => Json.null
+      (match (j.getObjValAs? String "kind").toOption.getD "" with
+       | "class" =>
+         if !Kinds.dom .cls ir then "{\"unmodelled\":\"outside the class domain\"}" else
+         (Json.mkObj [("ok", Json.arr ((Views.classView ir).map fun a =>
+            Json.mkObj [("name", Json.str (String.ofList a.name)), ("annotation", ostr a.annotation), ("value", valToJson a.value)]).toArray)]).compress
+       | "argparse" =>
+         if !Kinds.dom .argparse ir then "{\"unmodelled\":\"outside the argparse domain\"}" else
+         (Json.mkObj [("ok", Json.arr ((Views.argView ir).map fun a =>
+            Json.mkObj [("dest", Json.str (String.ofList a.dest)), ("type", ostr a.typeName), ("choices", Json.bool a.choices),
+              ("append", Json.bool a.append), ("required", Json.bool a.required),
+              ("default", match a.default with | some v => valToJson v | none => Json.null)]).toArray)]).compress
+       | _ =>
+         if !Kinds.dom (.func inl) ir then "{\"unmodelled\":\"outside the function domain\"}" else
+         let sg := Views.sigView inl kwo ir
+         (Json.mkObj [("ok", Json.mkObj [
+            ("params", Json.arr (sg.params.map fun p => Json.mkObj [("name", Json.str (String.ofList p.name)), ("kwonly", Json.bool p.kwOnly),
+                ("annotation", ostr p.annotation), ("default", valToJson p.default)]).toArray),
+            ("var_kw", Json.bool sg.hasVarKw), ("return", ostr sg.returnAnnotation)])]).compress)
     | .ok "conform" =>
       let b (k : String) := (j.getObjValAs? Bool k).toOption.getD false
       let o : Conform.Obs := { fileExists := b "exists", found := b "found", cmpEq := b "cmp_eq",
